@@ -2,6 +2,7 @@
 // Oracle: ref/chain fold of every extracted chain, and an independent canonical forest merge for the root.
 #include "ksi_util.hpp"
 #include "chain.hpp"
+#include "C16_blocksigner.hpp"
 extern "C" {
 #include <ksi/tree_builder.h>
 #include <ksi/hashchain.h>
@@ -40,7 +41,6 @@ static int canonicalLevel(const std::vector<int> &lv) {
     int acc = trees.back(); for (size_t i = trees.size() - 1; i > 0; i--) { acc = (trees[i - 1] > acc ? trees[i - 1] : acc) + 1; if (acc > 255) return -1; }
     return acc;
 }
-static Bytes imprintOf(KSI_DataHash *h) { const unsigned char *p = nullptr; size_t n = 0; if (!h || KSI_DataHash_getImprint(h, &p, &n) != KSI_OK) return Bytes(); return Bytes(p, p + n); }
 
 // read the links of an extracted chain through the public getters
 static bool readLinks(KSI_CTX *ctx, KSI_AggregationHashChain *ch, std::vector<Link> &out, std::string &err) {
@@ -117,6 +117,8 @@ static void runBuilder(Case &c, int alg, int maxLevel, const std::vector<Leaf> &
 static Bytes genImprint(Dec &d, int alg) { const ref::AlgInfo *a = ref::algInfo(alg); Bytes b; b.push_back((uint8_t)alg); uint8_t s = d.byte(), st = (uint8_t)(d.byte() | 1); for (unsigned i = 0; i < a->digestLen; i++) { b.push_back(s); s = (uint8_t)(s + st); } return b; }
 
 void harness_case(Dec &d, Case &c) {
+    // a quarter of the cases (first choice byte >= 0xc0) exercise the block signer; the byte is shared with the builder path so that older replay files keep their meaning
+    if (!d.empty() && d.p[d.i] >= 0xc0) { d.byte(); bs::blockSignerCase(d, c); return; }
     int alg = kSupported[d.pick(5)]; unsigned lm = d.pick(6); // level mode
     unsigned nm = d.pick(8); size_t n = nm < 4 ? 1 + d.pick(12) : (nm < 7 ? 1 + d.pick(64) : 1 + d.pick(400));
     int maxLevel = 0; unsigned mm = d.pick(4); std::vector<Leaf> leaves; bool nonUniform = false; int metas = 0;
